@@ -47,6 +47,13 @@ var mgWants = []mgWant{
 	{"internal/trigger/api/iteration_jitter.go", "", "WithJitter", "return", "jitter"},
 	{"internal/trigger/ramp/ramp_rate.go", "", "CalculateRampRate", "rateFn", "ramp_rateFn"},
 	{"internal/trigger/staged/calculator.go", "RateCalculator", "Rate", "", "staged_Rate"},
+	{"internal/trigger/file/file_parser.go", "ConfigFile", "validateCommonFields", "", "file_validateCommonFields"},
+	{"internal/trigger/file/file_parser.go", "Stage", "validateCommonFieldsOfStage", "", "file_validateCommonFieldsOfStage"},
+	{"internal/trigger/file/file_parser.go", "Stage", "validateConstantStage", "", "file_validateConstantStage"},
+	{"internal/trigger/file/file_parser.go", "Stage", "validateRampStage", "", "file_validateRampStage"},
+	{"internal/trigger/file/file_parser.go", "Stage", "validateStagedStage", "", "file_validateStagedStage"},
+	{"internal/trigger/file/file_parser.go", "Stage", "validateGaussianStage", "", "file_validateGaussianStage"},
+	{"internal/trigger/file/file_parser.go", "Stage", "validateUsersStage", "", "file_validateUsersStage"},
 }
 
 var timeConsts = map[string]string{"Nanosecond": "1", "Microsecond": "1000", "Millisecond": "1000000",
@@ -174,6 +181,8 @@ func (c *mgCtx) expr(e ast.Expr) string {
 			if s := leanFloatLit(x.Value); s != "" {
 				return s
 			}
+		case token.STRING:
+			return ".fresh" // an opaque non-nil value: no program in the fragment looks inside a string
 		}
 		return c.unsupportedE(e)
 	case *ast.Ident:
@@ -277,6 +286,9 @@ func (c *mgCtx) call(x *ast.CallExpr) string {
 					return "(.builtin1 " + leanStr(q) + " " + c.expr(x.Args[0]) + ")"
 				}
 				return "(.builtin2 " + leanStr(q) + " " + c.expr(x.Args[0]) + " " + c.expr(x.Args[1]) + ")"
+			}
+			if q == "fmt.Errorf" || q == "errors.New" {
+				return ".fresh" // a new non-nil error
 			}
 			if oracle0[q] && len(x.Args) == 0 {
 				return "(.call0 " + leanStr(q) + ")"
